@@ -1,17 +1,30 @@
 -------------------------- MODULE ValueHash_Trace --------------------------
 (***************************************************************************)
 (* C16, code -> spec.  A record per value:                                  *)
-(*   [id, obs |-> sequence of [seed, ord, h, o]]                            *)
-(* one observation per (child interpreter hash seed, insertion order): the  *)
-(* hash string returned by the REAL TypeRegistry.get_hash and the ordered   *)
-(* tree `o` of the object as it iterated in that interpreter.  TLC decides  *)
-(*   nh       number of distinct hashes          (contract: 1)              *)
+(*   [id, obs |-> sequence of [seed, ord, h, r, g, c, o]]                   *)
+(* one observation per (child interpreter hash seed, insertion order):      *)
+(*   h  the hash string returned by the REAL TypeRegistry.get_hash          *)
+(*   r  the hash the REAL backend RECORDED the same object under            *)
+(*      (RedunBackendDb.record_value; for ord >= 100: CallNode.value_hash / *)
+(*      Argument.value_hash read back after a real Scheduler run in which   *)
+(*      the value was a task result / a task argument)                      *)
+(*   g  1 iff backend.get_value(r) returned an equal value                  *)
+(*   c  call hash of the job that produced the value ("" if none)           *)
+(*   o  the ordered tree of the object as it iterated in that interpreter   *)
+(* The law "depends only on the value" is judged for h and, as a second      *)
+(* observation of the same law, for r; the recorded hash must BE the value   *)
+(* hash (agree), since records are looked up by it.  TLC decides            *)
+(*   nh / nr  number of distinct value / recorded hashes  (contract: 1)      *)
 (*   same     all observations are orderings of one abstract value          *)
-(*   fwd      equal serialisation (Ser of ValueHash.tla) => equal hash      *)
+(*   fwd(R)   equal serialisation (Ser of ValueHash.tla) => equal h (r)     *)
 (*   bwd      equal hash => equal serialisation (where Ser is exact)        *)
 (*   stable   int tables iterate in slot order (the IntStable assumption)   *)
+(*   agree    r = h in every observation                                    *)
+(*   back     g = 1 in every observation                                    *)
+(*   nc       number of distinct call hashes                (contract: <= 1) *)
 (*   classes  deviation classes of the value: the only licence for nh > 1   *)
-(* VERDICT <<index, id, nh, same, fwd, bwd, stable, wf, classes>>           *)
+(* VERDICT <<index, id, nh, same, fwd, bwd, stable, wf, classes,            *)
+(*           nr, fwdR, agree, back, nc>>                                    *)
 (***************************************************************************)
 EXTENDS ValueHash, Json, IOUtils
 
@@ -43,6 +56,7 @@ Verdict(r) ==
       V == Forget(os[1])
       sers == [j \in 1..n |-> Ser(os[j], TRUE)]
       hs == [j \in 1..n |-> r.obs[j].h]
+      rs == [j \in 1..n |-> r.obs[j].r]
   IN <<r.id,
        Cardinality({hs[j] : j \in 1..n}),
        B(\A j \in 1..n : Forget(os[j]) = V),
@@ -50,7 +64,12 @@ Verdict(r) ==
        B(ExactSer(V) => \A j, k \in 1..n : hs[j] = hs[k] => sers[j] = sers[k]),
        B(\A j \in 1..n : StableOrders(os[j])),
        B(WellFormed(V) /\ HashWF(V, TRUE)),
-       SetToSeq(DevClasses(V, TRUE))>>
+       SetToSeq(DevClasses(V, TRUE)),
+       Cardinality({rs[j] : j \in 1..n}),
+       B(\A j, k \in 1..n : sers[j] = sers[k] => rs[j] = rs[k]),
+       B(\A j \in 1..n : rs[j] = hs[j]),
+       B(\A j \in 1..n : r.obs[j].g = 1),
+       Cardinality({r.obs[j].c : j \in 1..n} \ {""})>>
 
 Emit == PrintT("VERDICT " \o ToJson(<<i>> \o Verdict(Vals[i])))
 =============================================================================
